@@ -92,7 +92,7 @@ def seq_axioms():
     # an element other than the removed one stays
     fa([s, k, y], z3.Implies(z3.And(0 <= k, k < Len(s), Contains(s, y), y != At(s, k)),
                              Contains(RemoveAt(s, k), y)),
-       [z3.MultiPattern(RemoveAt(s, k), Contains(s, y))])
+       [z3.MultiPattern(RemoveAt(s, k), Contains(s, y)), Contains(RemoveAt(s, k), y)])      # premise-driven and goal-driven
     # NoDup: "no element occurs twice" as a predicate with structural axioms (cheaper than its two-index definition)
     A.append(NoDup(Empty))
     fa([s, x], NoDup(Append1(s, x)) == z3.And(NoDup(s), z3.Not(Contains(s, x))), [NoDup(Append1(s, x))])
@@ -102,6 +102,9 @@ def seq_axioms():
        [z3.MultiPattern(NoDup(s), RemoveAt(s, k))])
     # positions are determined by elements
     fa([s, k], z3.Implies(z3.And(NoDup(s), 0 <= k, k < Len(s)), IndexOf(s, At(s, k)) == k), [z3.MultiPattern(NoDup(s), At(s, k))])
+    # list.remove(x) == RemoveAt(s, IndexOf(s, x)): every other member stays (stated directly for removal by value, goal-driven)
+    fa([s, x, y], z3.Implies(z3.And(Contains(s, x), Contains(s, y), y != x), Contains(RemoveAt(s, IndexOf(s, x)), y)),
+       [Contains(RemoveAt(s, IndexOf(s, x)), y)])
     # Update
     fa([s, k, x], z3.Implies(z3.And(0 <= k, k < Len(s)),
                              z3.And(Len(Update(s, k, x)) == Len(s), At(Update(s, k, x), k) == x)),
